@@ -89,3 +89,56 @@ PROPS["C04"] = {
     "design_ref": "DESIGN.md section 5 (C04)",
     "explanation": "generated:* postconditions, factory-called-exactly-once, registers-nothing, snapshot:static-resources-only",
 }
+
+
+LIFE_TRUSTED = CTX_TRUSTED + [
+    "A-XS contextlib.AsyncExitStack (entries run LIFO, raising entry replaces the exception in flight, remaining entries still run)",
+    "A-TG2 anyio task-group exit (waits for children; body exception X alone comes out as a group of exactly [X])",
+    "A-TD1 one teardown loop per context (the with-protocol calls __aexit__ once)",
+    "A-TD2 nobody registers a callback on a root context between the end of its teardown loop and `closed`",
+    "A-EXC with-statement protocol passes the block's exception (or None) to __aexit__",
+]
+
+PROPS["C01"] = {
+    "functions": ["_context.Context._run_teardown_callbacks", "_context.Context.add_teardown_callback", "_context.Context.__aenter__",
+                  "_context.Context.__aexit__", "_context.Context.add_resource"],
+    "trusted": LIFE_TRUSTED, "assumptions": CTX_ASSUME + ["routes 3 (@context_teardown) and 4 (start_service_task) register through "
+                  "add_teardown_callback; their wrappers are covered by the bounded harness only"],
+    "undecided": ["termination of the teardown loop (a callback may register callbacks forever)",
+                  "'on both backends': only through the backend-independent assumed contracts"],
+    "level_text": "Proof: ghost registration tokens turn `exactly once, LIFO, also for callbacks registered during teardown` into a stack "
+                  "invariant (INV_td) that the real loop body preserves for every number/kind of callbacks and every raising subset (any "
+                  "BaseException at any call/await); monitors at the pop / call / await events prove largest-pending-token, single "
+                  "invocation, argument = block exception iff pass_exception, awaitable awaited before the next pop; exit = one group with "
+                  "exactly the raised exceptions, cause = block exception. __aexit__ is verified over the AsyncExitStack model: teardown is the "
+                  "first entry run, closed on every outcome, block exception re-raised as itself.",
+    "level_note": "Trusted: A0, A1, A-XS, A-TG2, A-TD1, A-TD2, A-EXC, pyvc encoding. fixed: F7 (ambient exception). Bounded harness covers the "
+                  "@context_teardown route and both backends' real behaviour on sampled scenarios.",
+    "design_ref": "DESIGN.md section 5 (C01)",
+    "explanation": "loop invariant stack-invariant, monitors lifo:largest-pending-token / exactly-once / arg-is-block-exception / awaits-the-callbacks-awaitable",
+}
+PROPS["C12"] = {
+    "functions": ["_context.Context.__aenter__", "_context.Context.__aexit__", "_context.Context.__init__", "_context.current_context"],
+    "trusted": LIFE_TRUSTED, "assumptions": CTX_ASSUME + ["per-task isolation and inheritance at spawn are contextvars/anyio semantics (A-CV, A-TG3)"],
+    "undecided": ["concurrent tasks never disturb each other: carried entirely by A-CV"],
+    "level_text": "Proof: __aenter__ makes the context current and stores the previous value in the reset entry placed below the teardown "
+                  "entry; __aexit__ restores exactly that value on every outcome (teardown raising, task group raising, cancellation) after "
+                  "teardown ran with the context still current; __init__ takes the explicit parent, else the current context, skipping "
+                  "ComponentContexts.",
+    "level_note": "Trusted: A-CV (contextvars set/reset/per-task copy), A-XS, pyvc encoding.",
+    "design_ref": "DESIGN.md section 5 (C12)",
+    "explanation": "is-the-current-context, remembers-the-previous-current-context, previous-current-context-restored, parent-choice",
+}
+PROPS["C13"] = {
+    "functions": ["_context.Context._ensure_state", "_context.Context.closed", "_context.Context.__aenter__", "_context.Context.__aexit__",
+                  "_context.Context.add_resource", "_context.Context.add_resource_factory", "_context.Context.get_resource",
+                  "_context.Context.get_resource_nowait", "_context.Context.add_teardown_callback"],
+    "trusted": LIFE_TRUSTED, "assumptions": CTX_ASSUME, "undecided": [],
+    "level_text": "Proof: each of the five operations is verified against `wrong state => RuntimeError and nothing changed` with the allowed "
+                  "state sets taken from the statement ({open, closing}; add_resource_factory {open}); __aenter__ only from inactive with "
+                  "rollback; `closed` <=> closing/closed and monotone (G-st); __aexit__ sets closed on every outcome and raises RuntimeError "
+                  "for a still-open child.",
+    "level_note": "Trusted: A-XS, pyvc encoding.",
+    "design_ref": "DESIGN.md section 5 (C13)",
+    "explanation": "allowed-only-* / wrong-state-raises-RuntimeError / closed-on-every-outcome / G-st",
+}
